@@ -331,3 +331,129 @@ def _receiver_plausible(call, target):
         txt = norm(recv) if recv is not None else ""
         return "def" in txt.lower() and "default" not in txt.lower()
     return True
+
+
+# ---------------------------------------------------------------------------------------------
+# A5': JSON-typed values must be isinstance-guarded before type-specific use
+TYPE_SINK_ARGS = {"update": "argument of dict.update", "set": "argument of set()", "dict": "argument of dict()",
+                  "list": "argument of list()", "len": "argument of len()", "sorted": "argument of sorted()"}
+
+
+def type_labels(test, keys):
+    """Edge labels under which some expression in `keys` is known to have passed an isinstance test."""
+    out = set()
+    if isinstance(test, ast.UnaryOp) and isinstance(test.op, ast.Not):
+        return {not lab for lab in type_labels(test.operand, keys)}
+    if isinstance(test, ast.Call) and isinstance(test.func, ast.Name) and test.func.id == "isinstance" and test.args \
+            and norm(test.args[0]) in keys:
+        return {True}
+    if isinstance(test, ast.BoolOp):
+        if isinstance(test.op, ast.And):
+            for v in test.values:
+                if True in type_labels(v, keys):
+                    out.add(True)
+        else:
+            for v in test.values:
+                if False in type_labels(v, keys):
+                    out.add(False)
+    return out
+
+
+def type_sink(node, pm):
+    p = pm.get(id(node))
+    if p is None:
+        return None
+    if isinstance(p, ast.Attribute) and p.value is node:
+        return "attribute/method .%s" % p.attr
+    if isinstance(p, ast.Subscript) and p.value is node:
+        return "subscript"
+    if isinstance(p, ast.Compare) and any(isinstance(o, (ast.In, ast.NotIn)) for o in p.ops) and node in p.comparators:
+        return "membership test in it"
+    if isinstance(p, (ast.For, ast.comprehension)) and p.iter is node:
+        return "iteration"
+    if isinstance(p, ast.Call) and node in p.args:
+        nm = p.func.attr if isinstance(p.func, ast.Attribute) else (p.func.id if isinstance(p.func, ast.Name) else None)
+        if nm in TYPE_SINK_ARGS:
+            return TYPE_SINK_ARGS[nm]
+    if isinstance(p, ast.BinOp) and isinstance(p.op, ARITH):
+        return "operand"
+    return None
+
+
+def check_type_guards(ctx, rule, fi, source_texts, what):
+    """Every type-specific use of a JSON-typed value in fi (expressions with text in source_texts,
+    plus local names assigned from them) must be dominated by an isinstance test of that value."""
+    pmc = ctx.shared.setdefault("pm", {})
+    if fi not in pmc:
+        pmc[fi] = parent_map(fi.node)
+    pm = pmc[fi]
+    v = view(ctx, fi)
+    nc = ctx.shared.setdefault("nullchecker", NullChecker(ctx))
+    rd = nc.rd(fi)
+    ctx.saw(fi)
+    n_uses = 0
+    n_sources = 0
+    for src in source_texts:
+        # alias set: names assigned from an expression with this text
+        aliases = {src}
+        alias_defs = {}
+        for n in walk_no_nested(fi.node):
+            if isinstance(n, ast.Assign) and norm(n.value) == src:
+                for t in n.targets:
+                    if isinstance(t, ast.Name):
+                        aliases.add(t.id)
+                        alias_defs[t.id] = n
+        found = False
+        for n in walk_no_nested(fi.node):
+            if not isinstance(n, ast.expr) or norm(n) not in aliases:
+                continue
+            if isinstance(n, ast.Name) and not isinstance(n.ctx, ast.Load):
+                continue
+            if isinstance(n, ast.Name) and n.id in alias_defs:
+                defs = rd.at(n, n.id) or []
+                if not any(d.node is alias_defs[n.id] for d in defs):
+                    continue
+            found = True
+            sk = type_sink(n, pm)
+            if sk is None:
+                continue
+            n_uses += 1
+            ctx.count_sites()
+            # expression-local guard: isinstance(x, T) and x.y / x.y if isinstance(x, T) else ...
+            ok = False
+            cur = n
+            while not ok:
+                p = pm.get(id(cur))
+                if p is None or isinstance(p, ast.stmt):
+                    break
+                if isinstance(p, ast.IfExp) and ((cur is p.body and True in type_labels(p.test, aliases)) or
+                                                 (cur is p.orelse and False in type_labels(p.test, aliases))):
+                    ok = True
+                if isinstance(p, ast.BoolOp) and cur in p.values:
+                    idx = p.values.index(cur)
+                    want = True if isinstance(p.op, ast.And) else False
+                    if any(want in type_labels(x, aliases) for x in p.values[:idx]):
+                        ok = True
+                if isinstance(p, (ast.ListComp, ast.SetComp, ast.GeneratorExp, ast.DictComp)):
+                    if any(True in type_labels(c, aliases) for g in p.generators for c in g.ifs):
+                        ok = True
+                cur = p
+            u = v.node(n)
+            if not ok and u is not None:
+                for c in v.cfg.nodes:
+                    if c.kind != "cond" or c is u:
+                        continue
+                    for lab in type_labels(c.ast, aliases):
+                        if v.edge_guards(c, lab, u) or v.edge_required(c, lab, u):
+                            ok = True
+            stmt = n
+            while id(stmt) in pm and not isinstance(stmt, ast.stmt):
+                stmt = pm[id(stmt)]
+            ctx.check(ok, rule, fi.qualname, stmt, loc(fi, n),
+                      "%s `%s` comes from a decoded JSON document and may have any type, but is used as %s without a "
+                      "dominating isinstance test: a sidecar with another type here makes validation raise" % (
+                          what, norm(n)[:50], sk),
+                      desc="%s: `%s` (%s) is isinstance-guarded" % (fi.short, norm(n)[:40], sk))
+        if found:
+            n_sources += 1
+    return n_sources, n_uses
